@@ -282,7 +282,7 @@ example :
       ([⟨.args, 5, []⟩, ⟨.decode, 0, []⟩, ⟨.decode, 1, []⟩, ⟨.decode, 2, []⟩,
         ⟨.validate, 2, []⟩, ⟨.validate, 0, []⟩], .err (.custom 458755)) ∧
     run ix [] [9, 1] 4 = (expected ix [9, 1], .ok) ∧
-    (run ix [] [9] 2).2 = .err notEnoughAccountKeys ∧
+    (run ix [] [9] 2).2 = .err (.custom 9004) ∧
     (run ix [⟨.process, 5, .prog (.builtin 2)⟩] [9] 3).2 = .err (.builtin 2) ∧
     (run ix [⟨.process, 5, .prog (.builtin 2)⟩] [9] 3).1.length = 8 := by decide
 
